@@ -124,8 +124,59 @@ def menus(tier, seed):
                 draws='every answer of random.choice and np.random.random within the deviation bound')
 
 
+# custom element names (valid when masses are given); decoys differ beyond the second character.  [0]: pattern names of two characters, [1]: longer ones
+NAMES = [{'C': 'Cx', 'N': 'Nx', 'O': 'Ox'}, {'C': 'Cx', 'N': 'Nx1', 'O': 'Ox12'}]
+NAME_DECOYS = [{'C': 'Cx2', 'N': 'Nx1', 'O': 'Ox12'}, {'C': 'Cx2', 'N': 'Nx', 'O': 'Ox1'}]
+SPECIAL_PLACE = 16
+
+
+def special_scenarios(tier):
+    """cases beyond the small bound that C01 / C02 share: many-atom chiral patterns next to their mirror image, custom element
+    names longer than two characters, more than 2^15 atoms"""
+    scs = []
+    for v in (0, 1):
+        for n, apex in ((30, None), (71, None), (71, 36), (64, 1)):
+            for at, h in ((0.2, 0.5), (0.05, 0.5), (0.2, 1.2)):
+                scs.append(dict(special='sheet', variant=v, n=n, apex=apex, height=h, atol=at, decoy='mirror', noise=0, place=SPECIAL_PLACE))
+    scs += [dict(special='names', variant=v, long=lg, cell=ci, atol=0.05, decoy='lookalike', noise=0, place=SPECIAL_PLACE) for v in (0, 1, 2) for lg in (0, 1) for ci in (0, 2)]
+    scs += [dict(special='large', variant=v, atol=0.05, decoy='none', noise=0, place=SPECIAL_PLACE) for v in (0, 1, 2)]
+    return scs
+
+
+def named_atoms(el, pos, cell):
+    uniq = list(dict.fromkeys(el))
+    return Atoms(atom_types=[uniq.index(e) for e in el], atom_type_elements=uniq, atom_type_labels=uniq, atom_type_masses=[12.0 + i for i in range(len(uniq))],
+                 positions=np.asarray(pos, float), **({} if cell is None else dict(cell=np.array(cell, float))))
+
+
+def special(sc, ctx):
+    kind = sc['special']; seed = ctx['seed']
+    if kind == 'sheet':
+        cell = G.SHEET_CELLS[sc['variant']]
+        pel, pp = G.sheet_pattern(sc['n'], sc['height'], sc['apex'])
+        el, pos, proper, mirror = G.sheet_structure(cell, G.generic_rotations(seed, 3)[1], (0.5, 0.5, 0.5), (0.02, 0.97, 0.01), sc['n'], sc['height'], sc['apex'])
+        planted = [proper]; s = Atoms(elements=el, positions=pos, cell=cell.copy()); p = Atoms(elements=pel, positions=pp + np.array([3.3, -1.2, 0.7]))
+    elif kind == 'large':
+        cell, pos, el, pp, pel, planted = G.large_case(sc['variant'])
+        s = Atoms(elements=el, positions=pos, cell=cell.copy()); p = Atoms(elements=pel, positions=pp + np.array([3.3, -1.2, 0.7]))
+    else:
+        # C-N-O with custom element names; one true copy, decoy copies in which one atom carries a name that agrees in the first two characters only
+        cell = G.CELLS[sc['cell']][1]; el0, pp = G.pattern('CNO'); sp = sub_poses(seed)
+        pel = [NAMES[sc['long']][e] for e in el0]
+        el = list(pel); pos = [(sp[4] @ pp.T).T + np.array([0.97, 0.03, 0.97]) @ cell]
+        for j, fr in enumerate([(0.3, 0.6, 0.4), (0.6, 0.3, 0.7), (0.45, 0.8, 0.2)]):
+            d = list(pel); a = (j + sc['variant']) % 3; d[a] = NAME_DECOYS[sc['long']][el0[a]]
+            el += d; pos.append((sp[(j + 1) % len(sp)] @ pp.T).T + np.array(fr) @ cell)
+        pos = G._wrap(np.vstack(pos), cell); planted = [(0, 1, 2)]
+        s = named_atoms(el, pos, cell); p = named_atoms(pel, pp + np.array([3.3, -1.2, 0.7]), None)
+    spec = dict(el=list(el), pos=np.asarray(pos), pel=list(pel), pp=np.asarray(pp, float), planted=[tuple(t) for t in planted])
+    return dict(s=s, p=p, spec=spec, cell=cell, kw={})
+
+
 def materialise(sc, ctx):
     """-> dict(structure Atoms, pattern Atoms, spec (from alphabet.build), cell, hints kwargs)"""
+    if 'special' in sc:
+        return special(sc, ctx)
     cell = G.CELLS[sc['cell']][1]
     seed = ctx['seed']
     extra = ()
@@ -175,5 +226,7 @@ def answers_nonzero(a):
 
 
 def describe_case(m, sc):
+    if len(m['spec']['el']) > 300:
+        return dict(scenario=sc, cell=m['cell'].tolist(), atoms=len(m['spec']['el']), pattern_elements=m['spec']['pel'], planted=m['spec']['planted'])
     return dict(scenario=sc, cell=m['cell'].tolist(), structure_elements=m['spec']['el'], structure_positions=np.round(m['spec']['pos'], 6).tolist(),
                 pattern_elements=m['spec']['pel'], pattern_positions=(m['spec']['pp'] + np.array([3.3, -1.2, 0.7])).tolist(), planted=m['spec']['planted'], hints=m['kw'])
